@@ -73,8 +73,14 @@ var c16Spellings = []string{"sec", "nanos", "frac", "rfc", "rfc_zone"}
 func genInstant(r *Rng, ref int64) (int64, string) {
 	var ns int64
 	switch x := r.Intn(100); {
-	case x < 60:
+	case x < 55:
 		ns = ref - 48*3600*sec + r.Int63n(96*3600*sec)
+	case x < 62:
+		// 2001-01-01 .. 2001-09-09: unix seconds still have nine digits
+		ns = lo2001 + r.Int63n(int64(1_000_000_000)*sec-lo2001)
+	case x < 66:
+		// around the ten-digit boundary
+		ns = int64(1_000_000_000)*sec - 5*sec + r.Int63n(10*sec)
 	default:
 		ns = lo2001 + r.Int63n(hi2200c-lo2001)
 	}
@@ -98,7 +104,7 @@ func genPromDuration(r *Rng) (int64, string) {
 	units := []struct {
 		u  string
 		ns int64
-	}{{"w", 7 * 24 * 3600 * sec}, {"d", 24 * 3600 * sec}, {"h", 3600 * sec}, {"m", 60 * sec}, {"s", sec}, {"ms", 1_000_000}}
+	}{{"y", 365 * 24 * 3600 * sec}, {"w", 7 * 24 * 3600 * sec}, {"d", 24 * 3600 * sec}, {"h", 3600 * sec}, {"m", 60 * sec}, {"s", sec}, {"ms", 1_000_000}}
 	if r.Bool(0.05) {
 		return 0, "0s"
 	}
@@ -113,6 +119,9 @@ func genPromDuration(r *Rng) (int64, string) {
 		v := int64(1 + r.Intn(59))
 		if units[i].u == "w" {
 			v = int64(1 + r.Intn(8))
+		}
+		if units[i].u == "y" {
+			v = int64(1 + r.Intn(3))
 		}
 		total += v * units[i].ns
 		fmt.Fprintf(&sb, "%d%s", v, units[i].u)
